@@ -69,6 +69,7 @@ func guardFor(f func(), scale int) (panicMsg string) {
 	}()
 	limit := hangLimit * time.Duration(scale)
 	cpu0, wall0 := processCPU(), time.Now()
+	idleCPU, idleSince := cpu0, wall0
 	tick := time.NewTicker(250 * time.Millisecond)
 	defer tick.Stop()
 	for {
@@ -82,6 +83,13 @@ func guardFor(f func(), scale int) (panicMsg string) {
 			}
 			return msg
 		case <-tick.C:
+			// blocked: the call has not returned and the whole process has used next to no CPU for eight seconds
+			// (a busy machine slows a running call down, it does not stop its CPU clock)
+			if cpu := processCPU(); cpu-idleCPU > 30*time.Millisecond {
+				idleCPU, idleSince = cpu, time.Now()
+			} else if idle := time.Since(idleSince); idle >= 8*time.Second {
+				return fmt.Sprintf("HANG: the call is blocked: it has not returned after %v and the process has been idle for the last %v (deadlock)", time.Since(wall0).Round(time.Second), idle.Round(time.Second))
+			}
 			if wall := time.Since(wall0); wall >= limit {
 				if cpu := processCPU() - cpu0; cpu >= limit || wall >= 10*limit {
 					return fmt.Sprintf("HANG: the call did not return within %v of CPU time (%v of wall time)", cpu.Round(time.Second), wall.Round(time.Second))
